@@ -273,7 +273,7 @@ def _run_history(desc, props=("C03", "C05", "C09")):
         if tr:
             T0, kind = trng.choice(tr)
             # (steps that divide 3600 s make stores report the SAME wall-clock time in the two passes of a repeated hour, differing in fold only)
-            S.use_instants(T0 - trng.choice([300, 1800, 3000, 3500]), trng.choice([37, 97, 181, 900, 1800, 3600]), trng)
+            S.use_instants(T0 - trng.choice([300, 1800, 3000, 3500]), trng.choice([37, 37, 97, 97, 181, 181, 900, 1800, 3600]), trng)
             stats["histories_across_dst_transition"] = 1
     steps = desc.get("steps", 8)
     fresh = None
